@@ -1,0 +1,24 @@
+//go:build verif
+
+package redis
+
+import (
+	"crypto/tls"
+	"net"
+	"sort"
+)
+
+// VerifServeConn serves one caller-supplied connection synchronously through the real connection loop.
+func (server *Server) VerifServeConn(conn net.Conn, tlsState *tls.ConnectionState) error {
+	return server.receive(conn, tlsState)
+}
+
+// VerifCommandNames returns the registered command names.
+func (server *Server) VerifCommandNames() []string {
+	names := make([]string, 0, len(server.commandExecutors))
+	for name := range server.commandExecutors {
+		names = append(names, name)
+	}
+	sort.Strings(names)
+	return names
+}
